@@ -1531,6 +1531,76 @@ func genLSM(repo, out string) {
 }
 
 // genTable writes Generated/Table.lean: the binary searches Data.LowerBound and Index.LowerBound
+// genKway: pkg/kway/merge.go — merge
+func genKway(repo, out string) {
+	p := parseDir(repo + "/pkg/kway")
+	var sb strings.Builder
+	sb.WriteString("/-! GENERATED by /verif/extract (gotrans.go) from /repo/pkg/kway/merge.go on every check run. Do not edit.\n")
+	sb.WriteString("    `merge`: `lists` is the slice of the input slices (`lists[i] = list[1:]` = `set i tail`), the heap `h` a list of elements\n")
+	sb.WriteString("    `(entry, LI)` kept sorted by `less` (`Heap.Less`): `heap.Push` = `hpush less` (sorted insertion), `heap.Pop` = head and tail —\n")
+	sb.WriteString("    the trusted abstraction of container/heap; `latest` is the Go map (association list, unique keys, `keyOf e` = `e.Key`),\n")
+	sb.WriteString("    `slices.SortFunc` a parameter `sort`; `dflt` is never read (every `[0]` is guarded by a length test).\n")
+	sb.WriteString("    `Model/KwayTie.lean` proves that for strictly sorted inputs `merge true` is the specification `LSM.mergeVersions`. -/\n")
+	sb.WriteString("set_option linter.unusedVariables false\nnamespace GenKway\n\n")
+	sb.WriteString("/-- sorted insertion: `x` goes before the first element it is `less` than -/\ndef hpush {α : Type} (less : α → α → Bool) (x : α) : List α → List α\n  | [] => [x]\n  | y :: ys => if less x y then x :: y :: ys else y :: hpush less x ys\n\n")
+	var fd *ast.FuncDecl
+	for _, f := range p.files {
+		for _, d := range f.Decls {
+			if x, ok := d.(*ast.FuncDecl); ok && x.Recv == nil && x.Name.Name == "merge" {
+				fd = x
+			}
+		}
+	}
+	elT := "(ε × Nat)"
+	sp := transSpec{
+		leanName: "merge",
+		binders:  "{ε κ : Type} [DecidableEq κ] (keyOf : ε → κ) (tomb : ε → Bool) (less : " + elT + " → " + elT + " → Bool) (sort : List ε → List ε) (dflt : ε) (keepTombstone : Bool) (inputs : List (List ε))",
+		retType:  "List ε",
+		exprMap: map[string]string{
+			"len(list) > 0": "(decide (0 < list.length))", "list[0]": "(list.headD dflt)", "list[1:]": "list.tail",
+			"len(lists[e.LI]) > 0": "(decide (0 < (lists.getD e.2 []).length))", "lists[e.LI][0]": "((lists.getD e.2 []).headD dflt)",
+			"lists[e.LI][1:]": "(lists.getD e.2 []).tail", "e.LI": "e.2", "e.Key": "(keyOf e.1)", "e.Entry": "e.1",
+			"h.Len() > 0": "(decide (0 < h.length))", "entry.Tombstone": "(tomb entry)",
+		},
+		state: []string{"h", "lists", "latest", "merged"}, stateLn: []string{"h", "lists", "latest", "merged"},
+		stateTy:      []string{"List " + elT, "List (List ε)", "List (κ × ε)", "List ε"},
+		mapDefault:   map[string]string{"latest": "dflt"},
+		sliceDefault: map[string]string{"lists": "[]"},
+		zero:         map[string]string{"[]types.Entry": "[]"},
+		litTuple:     true, loopFuel: "((inputs.map List.length).sum + 1)",
+		binds: map[string][][2]string{"heap.Pop(h).(Element)": {{"e", "(h.headD (dflt, 0))"}, {"h", "h.tail"}}},
+		wraps: map[string]func(string) string{
+			"heap.Push(h, Element{Entry: list[0], LI: i})": func(tail string) string {
+				return "(let h := hpush less (list.headD dflt, i) h; " + tail + ")"
+			},
+			"heap.Push(h, Element{Entry: lists[e.LI][0], LI: e.LI})": func(tail string) string {
+				return "(let h := hpush less ((lists.getD e.2 []).headD dflt, e.2) h; " + tail + ")"
+			},
+			"slices.SortFunc(merged, *": func(tail string) string { return "(let merged := sort merged; " + tail + ")" },
+		},
+		skipStmt: func(st ast.Stmt) bool { s := goStr(st); return s == "h := &Heap{}" || s == "heap.Init(h)" },
+		ret:      func(vals []string, st []string) string { return "merged" },
+		fallOff:  func(st []string) string { return "merged" },
+		panicVal: "merged",
+	}
+	d := ""
+	err := fmt.Errorf("kway.merge not found")
+	if fd != nil {
+		t := &translator{spec: sp}
+		body := t.stmts(fd.Body.List, func() string { return "merged" }, "", "")
+		err = t.err
+		d = fmt.Sprintf("def %s %s : %s :=\n  let h : List %s := []\n  let lists := inputs\n  let latest : List (κ × ε) := []\n  let merged : List ε := []\n  %s\n", sp.leanName, sp.binders, sp.retType, elT, body)
+	}
+	if err != nil {
+		d = fmt.Sprintf("/-- UNTRANSLATABLE: %s -/\ndef merge : Unit := ()\n", strings.ReplaceAll(err.Error(), "-/", "- /"))
+	}
+	sb.WriteString(d + "\n")
+	sb.WriteString("end GenKway\n")
+	if err := os.WriteFile(out, []byte(sb.String()), 0644); err != nil {
+		panic(err)
+	}
+}
+
 // genWal: wal/wal.go — WAL.Write
 func genWal(repo, out string) {
 	p := parseDir(repo + "/wal")
